@@ -2,6 +2,7 @@ import JsonVerif.Lemmas.PrintTokens
 import JsonVerif.Lemmas.PrintOneLine
 import JsonVerif.Lemmas.Steps
 import JsonVerif.Model.Entry
+import JsonVerif.Lemmas.Hub
 /-!
 # C04 — Printing round-trips: any value under any print options re-parses to itself
 
@@ -13,12 +14,19 @@ options therefore only ever change insignificant whitespace.
 namespace JsonVerif.C04
 open JsonVerif
 
-/-- Full statement (round trip through the strict parser), for values whose numbers are JSON
-    numbers — the guard the API enforces (`NumberBuf::new`).  Not yet proved in Lean; see
-    `C04_only_whitespace` for the proved part and the evidence for what is tested. -/
-def C04_full (numberOk : List Char → Prop) (numsOk : (List Char → Prop) → JValue → Prop) : Prop :=
-  ∀ (v : JValue) (o : PrintOptions) (ind : Nat), numsOk numberOk v →
-    ∃ t cm, printWith o ind v = some t ∧ parseStr ⟨false, false⟩ t = .ok (v, cm)
+/-- **Round trip**, full statement: for every value whose numbers are JSON numbers (`NumsOk`: the
+    guard the API enforces through `NumberBuf::new`), every print option record, every starting
+    indentation and every parse option record, the printer produces a text (it never panics) and
+    the parser maps that text back to the very same value — entry order, duplicate keys, every
+    character of every string, every number spelling. -/
+theorem C04_round_trip (po : PrintOptions) (ind : Nat) (o : ParseOptions) (v : JValue)
+    (hn : NumsOk v) :
+    ∃ t cm, printWith po ind v = some t ∧ parseStr o t = .ok (v, cm) := print_parse po ind o hn
+
+/-- … in particular the printed text is always a valid strict RFC 8259 document denoting `v`. -/
+theorem C04_printed_is_json (po : PrintOptions) (ind : Nat) (v : JValue) (hn : NumsOk v) :
+    ∃ t, printWith po ind v = some t ∧ GDoc t v :=
+  ⟨_, printer_eq_spec po v ind, interleave_gdoc hn (spec_interleave po v ind)⟩
 
 /-- **Printing never panics and only adds insignificant whitespace**: under every option record and
     indentation, the output is the value's own token sequence (the one the compact serializer
@@ -40,6 +48,13 @@ theorem C04_compact_is_tokens (v : JValue) (ind : Nat) :
 def demo : JValue :=
   .object [(['a', '"'], .array [.number "-1.50E+3".toList, .string ['\n', Char.ofNat 0x1F600], .object []]),
            (['a', '"'], .bool true)]
+
+example : NumsOk demo := by
+  refine ⟨⟨?_, trivial, trivial, trivial⟩, trivial, trivial⟩
+  have := GNumber.neg ['1'] ['.', '5', '0'] ['E', '+', '3'] (.nz '1' [] (by decide) (by intro c h; cases h))
+    (.some '5' ['0'] (by decide) (by intro c h; simp at h; subst h; decide))
+    (.signed 'E' '+' '3' [] (by decide) (.inl rfl) (by decide) (by intro c h; cases h))
+  simpa [NumsOk] using this
 
 example : (printWith Gen.prettyPreset 0 demo).map (fun t => isOk (parseStr ⟨false, false⟩ t)) = some true := by
   unfold parseStr; simp only [← parseCharsF_eq]; decide +kernel
